@@ -571,11 +571,17 @@ def symtab_problems(elf, syms, case):
                 elif not (b == "l" or (b == w["bind"] and v == vis)):
                     bad["binding-visibility"] = (f"{sym.name}: entry is bind={b} vis={v}; winning binding {w['bind']}, "
                                                  f"most constraining visibility {vis}")
-        if retained_only is None:
-            want = sorted(d["id"] for d in locals_ if sym.type != "abs" and d["sec"] != "bss")
-            got = sorted(m for m in (_marker(elf, s) for s in le) if m is not None and (w is None or m != w["id"]))
-            if want != got:
-                bad["local-definitions"] = f"{sym.name}: local definitions {want}, local entries point at markers {got}"
+        # STB_LOCAL entries carrying a generated name must point at one of that name's definitions
+        # (their presence is not required by the statement).
+        ids = {d["id"] for d in sym.defs}
+        for s in le:
+            if s.shndx in (E.SHN_ABS, E.SHN_UNDEF) or s.shndx >= len(elf.sections):
+                continue
+            if elf.sections[s.shndx].type == E.SHT_NOBITS:
+                continue
+            m = _marker(elf, s)
+            if m is None or m not in ids:
+                bad["local-value"] = f"{sym.name}: local entry at {s.value:#x} does not point at a definition of that name (marker {m})"
     return bad
 
 
@@ -695,9 +701,6 @@ class C31(Check):
         # ---- (1) .symtab rules, calibrated on GNU ld's output --------------------------------
         has_l = any(s.type == E.SHT_SYMTAB for s in el.sections)
         has_w = any(s.type == E.SHT_SYMTAB for s in ew.sections)
-        if case["strip"] == "s":
-            if has_w and not has_l:
-                raise Violation("strip-all-symtab-present", "-s: GNU ld emits no .symtab, wild does")
         pl = symtab_problems(el, syms, case)
         pw = symtab_problems(ew, syms, case)
         for rule in sorted(pw):
